@@ -219,6 +219,7 @@ func rulesC10(c *Ctx) {
 	}
 
 	c10MoveGuard(c, g)
+	c10Support(c)
 
 	// ---- (b) multiplexer
 	const pkABCI = "consensus/cometbft/abci"
@@ -612,4 +613,78 @@ func quantityMutates(in ssa.Instruction, v ssa.Value) bool {
 		return len(cc.Args) >= 1 && same(cc.Args[0])
 	}
 	return false
+}
+
+// c10Support: the code facts that reviewed table rows of divisors.tsv /
+// moves.tsv cite are themselves checked, so that a row's reason cannot silently
+// stop being true (F5 and F6 were rows whose reasons were false).
+func c10Support(c *Ctx) {
+	const rule = "C10.support"
+	// fee split weights are not all zero (row: disburseFeesP weightPVQ)
+	if fn := c.needFn(rule, "staking/api.(*ConsensusParameters).SanityCheck"); fn != nil {
+		c.SuccessRequiresEdges(rule, fn, "some fee split weight is non-zero", append(append(
+			HeldEdges(fn, `^!common/quantity\.\(\*Quantity\)\.IsZero\(param:p\.FeeSplitWeightPropose\)$`),
+			HeldEdges(fn, `^!common/quantity\.\(\*Quantity\)\.IsZero\(param:p\.FeeSplitWeightVote\)$`)...),
+			HeldEdges(fn, `^!common/quantity\.\(\*Quantity\)\.IsZero\(param:p\.FeeSplitWeightNextPropose\)$`)...),
+			"cited by divisors.tsv: the sum of the three fee split weights is a divisor")
+		c.SuccessRequiresCond(rule, fn, "MinCommissionRate <= CommissionRateDenominator", `^common/quantity\.\(\*Quantity\)\.Cmp\(param:p\.CommissionScheduleRules\.MinCommissionRate,\*global:staking/api\.CommissionRateDenominator\) <= 0$`, "cited by moves.tsv: commission <= total")
+	}
+	// ... and a parameter change is sanity-checked before it is stored
+	if fn := c.needFn(rule, "consensus/cometbft/apps/staking.(*Application).changeParameters"); fn != nil {
+		sc := CallsTo(fn, "params.SanityCheck", "staking/api.(*ConsensusParameters).SanityCheck", "")
+		set := CallsTo(fn, "SetConsensusParameters", "consensus/cometbft/apps/staking/state.(*MutableState).SetConsensusParameters", "")
+		c.MustPrecede(rule, fn, sc, set, "cited by divisors.tsv: changed parameters pass the same sanity check as genesis parameters before they are stored")
+	}
+	// commission rates are at most the denominator (row: computeCommission)
+	if fn := c.needFn(rule, "staking/api.(*CommissionSchedule).validateNondegenerate"); fn != nil {
+		// per element of the Rates loop: a rate above the denominator can never lead to success
+		over := HeldEdges(fn, `^common/quantity\.\(\*Quantity\)\.Cmp\(&\(.*Rates\[.*\)\.Rate,\*global:staking/api\.CommissionRateDenominator\) > 0$`)
+		ok := len(over) > 0 && Reach(fn, nil, over, anyOf(SuccessReturns(fn)), nil) == nil
+		c.Check(ok, rule, fname(fn)+":rate step > CommissionRateDenominator ⇒ rejected", c.P.Pos(fn.Pos()), "a rate step above the denominator always fails validation", "a commission rate step above CommissionRateDenominator is no longer rejected (cited by moves.tsv: commission <= total)")
+	}
+	// slash reward percentages are at most 100 (row: distributeSlashedFunds)
+	if fn := c.needFn(rule, "registry/api.(*RuntimeStakingParameters).ValidateBasic"); fn != nil {
+		c.SuccessRequiresCond(rule, fn, "RewardSlashEquvocationRuntimePercent <= 100", `^\*param:s\.RewardSlashEquvocationRuntimePercent <= 100$`, "cited by moves.tsv: runtime reward <= slashed amount")
+		c.SuccessRequiresCond(rule, fn, "RewardSlashBadResultsRuntimePercent <= 100", `^\*param:s\.RewardSlashBadResultsRuntimePercent <= 100$`, "cited by moves.tsv: runtime reward <= slashed amount")
+	}
+	// a withdraw policy with a zero interval is disabled (row: AuthorizeWithdrawal)
+	if fn := c.needFn(rule, "vault/api.(*WithdrawPolicy).IsDisabled"); fn != nil {
+		ok := false
+		for _, r := range Returns(fn) {
+			s := vstr(r.Results[0])
+			if strings.Contains(s, "*param:wp.LimitInterval == 0") && strings.Contains(s, "|true") {
+				ok = true
+			}
+		}
+		c.Check(ok, rule, fname(fn)+":LimitInterval==0 ⇒ disabled", c.P.Pos(fn.Pos()), "IsDisabled is true whenever LimitInterval is zero", "IsDisabled no longer implies a non-zero LimitInterval when false: AuthorizeWithdrawal divides by it")
+	}
+	if fn := c.needFn(rule, "vault/api.(*AddressState).AuthorizeWithdrawal"); fn != nil {
+		var divs []ssa.Instruction
+		for _, b := range fn.Blocks {
+			for _, in := range b.Instrs {
+				if bo, ok := in.(*ssa.BinOp); ok && bo.Op == token.QUO && strings.Contains(vstr(bo.Y), "LimitInterval") {
+					divs = append(divs, in)
+				}
+			}
+		}
+		c.GuardedByAny(rule, fn, "!WithdrawPolicy.IsDisabled()", []string{`^!vault/api\.\(\*WithdrawPolicy\)\.IsDisabled\(param:as\.WithdrawPolicy\)$`}, Ev{Name: "height / LimitInterval", Fn: fn, Ins: divs}, "cited by divisors.tsv")
+	}
+	// the supplementary sanity interval is positive when the application is enabled (rows: endBlockImpl)
+	if fn := c.needFn(rule, "consensus/cometbft/config.(*Config).Validate"); fn != nil {
+		c.SuccessRequiresEdges(rule, fn, "!SupplementarySanity.Enabled || Interval >= 1", append(
+			HeldEdges(fn, `^!\*param:c\.SupplementarySanity\.Enabled$`),
+			HeldEdges(fn, `^\*param:c\.SupplementarySanity\.Interval >= 1$`)...), "cited by divisors.tsv")
+	}
+	// genesis moves LastBlockFees into the common pool (row: disburseFeesVQ nEVQ)
+	if fn := c.needFn(rule, "consensus/cometbft/apps/staking.(*Application).initLastBlockFees"); fn != nil {
+		ok := false
+		for _, b := range fn.Blocks {
+			for _, in := range b.Instrs {
+				if st, isSt := in.(*ssa.Store); isSt && strings.HasSuffix(vstr(st.Addr), "param:st.LastBlockFees") && strings.Contains(vstr(st.Val), "common/quantity.NewQuantity()") {
+					ok = true
+				}
+			}
+		}
+		c.Check(ok, rule, fname(fn)+":genesis LastBlockFees reset to zero", c.P.Pos(fn.Pos()), "genesis fees are moved to the common pool and LastBlockFees is reset", "initLastBlockFees no longer resets LastBlockFees to zero: the first block would divide persisted fees by zero voters")
+	}
 }
